@@ -34,16 +34,24 @@ SlotLead(c) == IF Map[c] < 0 THEN c + Map[c] ELSE c          \* c is 1-based, Ma
 RECURSIVE NextLead(_)
 NextLead(c) == IF c > TN THEN TN + 1 ELSE IF Map[c] >= 0 THEN c ELSE NextLead(TLCEval(c + 1))
 SlotEnd(lead) == Map[NextLead(lead + 1)]
+\* dynamic mode (SuperLU_DYNAMIC_SNODE_STORE): only the relaxed supernodes are laid out in advance,
+\* one after the other up to Glu->nextlu; the other H-supernodes get their slot from DynamicSetMap
+RelaxLeads == {RLT[i][1] : i \in 1..Len(RLT)}
+DynEnd(lead) == IF lead \in RelaxLeads
+                THEN LET later == {Map[c] : c \in {x \in RelaxLeads : Map[x] > Map[lead]}} \cup {Crt.a[5]}
+                     IN CHOOSE m \in later : \A y \in later : m <= y
+                ELSE 0
 
 RegInit == TLCSet(1, 0)
-VARIABLES l, slot
-tvars == <<vars, l, slot>>
+VARIABLES l, slot, slotEnd
+tvars == <<vars, l, slot, slotEnd>>
 E == Tr[l]
 Ev(name) == l <= Len(Tr) /\ E.e = name /\ l' = l + 1
-Keepslot == UNCHANGED slot
+Keepslot == UNCHANGED <<slot, slotEnd>>
 
 TInit == /\ RegInit /\ Init /\ l = 3
          /\ slot = [c \in 1..(TN + 1) |-> Map[c]]
+         /\ slotEnd = [c \in 1..(TN + 1) |-> IF c > TN \/ Map[c] < 0 THEN 0 ELSE IF Dyn THEN DynEnd(c) ELSE SlotEnd(c)]
          /\ Tr[2].e = "Create" /\ Crt.a[1] = TP /\ Crt.a[2] = TN
 
 TLoop == Ev("Loop") /\ Keepslot /\ LET p == E.p IN Loop(p) /\ jcol[p] = Col(E.a[1])
@@ -99,12 +107,12 @@ TLusupAlloc == Ev("LusupAlloc") /\ LET p == E.p  c == Col(E.a[1])  lead == SlotL
             /\ (IF pc[p] = "sfact" THEN jcol[p] ELSE jj[p]) = c
             /\ lead = Col(E.a[4])
             /\ E.a[3] = slot[lead]
-            /\ (~Dyn => E.a[3] + E.a[2] <= SlotEnd(lead))
             /\ slot' = [slot EXCEPT ![lead] = @ + E.a[2]]
-            /\ UNCHANGED vars
-TDynMap == Ev("DynMap") /\ LET p == E.p IN
+            /\ UNCHANGED <<vars, slotEnd>>
+TDynMap == Ev("DynMap") /\ LET lead == Col(E.a[1]) IN
             /\ Dyn /\ E.a[3] + E.a[2] <= E.a[4]
-            /\ slot' = [slot EXCEPT ![Col(E.a[1])] = E.a[3]]
+            /\ slot' = [slot EXCEPT ![lead] = E.a[3]]
+            /\ slotEnd' = [slotEnd EXCEPT ![lead] = E.a[3] + E.a[2]]
             /\ UNCHANGED vars
 TJoinAll == Ev("JoinAll") /\ Keepslot /\ JoinAll /\ E.a[1] = TP
 TFixupMove == Ev("FixupMove") /\ Keepslot /\
@@ -118,6 +126,7 @@ TWrap == Ev("Wrap") /\ Keepslot /\ Wrap /\ nsuper = E.a[3] + 1 /\ minfo = E.a[4]
 ResultOK(R) == /\ R.info = minfo
                /\ R.thrAfter = R.thrBefore                       \* C04: no thread left
                /\ R.Aunchanged = 1
+               /\ ("inside" \in DOMAIN R => R.inside = 1)      \* C14: L/U storage inside the caller's workspace
                /\ (R.info = 0 =>
                      /\ R.nsuper = nsuper
                      /\ R.extract = 0
@@ -141,5 +150,6 @@ TSpec == TInit /\ [][TNext]_tvars
 Progress == TLCSet(1, IF TLCGet(1) > l THEN TLCGet(1) ELSE l)
 Accepted == IF TLCGet(1) > Len(Tr) THEN TRUE
             ELSE /\ PrintT(<<"REJECTED at line", TLCGet(1), Tr[TLCGet(1)]>>) /\ FALSE
-SlotBound == ~Dyn => \A c \in 1..TN : (Map[c] >= 0) => slot[c] <= SlotEnd(c)
+\* C05: no supernode outgrows the slot reserved for it in lusup (the code has no check here)
+SlotBound == \A c \in 1..TN : (Map[c] >= 0) => slot[c] <= slotEnd[c]
 =============================================================================
